@@ -162,6 +162,9 @@ class QuicConnectionProtocol(asyncio.DatagramProtocol):
         self._quic.receive_datagram(cast(bytes, data), addr, now=self._loop.time())
         self._process_events()
         self.transmit()
+        # transmit() may have written NEW_CONNECTION_ID frames: handle the
+        # ConnectionIdIssued events now, before the peer can use the new IDs
+        self._process_events()
 
     # overridable
 
@@ -203,6 +206,9 @@ class QuicConnectionProtocol(asyncio.DatagramProtocol):
         self._quic.handle_timer(now=now)
         self._process_events()
         self.transmit()
+        # transmit() may have written NEW_CONNECTION_ID frames: handle the
+        # ConnectionIdIssued events now, before the peer can use the new IDs
+        self._process_events()
 
     def _process_events(self) -> None:
         event = self._quic.next_event()
